@@ -13,6 +13,7 @@ from packaging import tags as pkg_tags  # noqa: E402
 from packaging import utils as pkg_utils  # noqa: E402
 
 from dep_logic.tags import EnvSpec, Implementation, InvalidWheelFilename, Platform  # noqa: E402
+from dep_logic.tags import os as dl_os  # noqa: E402
 from dep_logic.tags.platform import Arch, PlatformError  # noqa: E402
 from dep_logic.tags.tags import EnvCompatibility, parse_wheel_tags  # noqa: E402
 
@@ -705,6 +706,21 @@ def run_c18(run: core.Run, n: int) -> None:
                 run.fail(core.Failure("plat-rt|" + nm, f"Platform.parse(str(p)) != p for {nm}", rep))
         except Exception as e:  # noqa: BLE001
             run.fail(core.Failure("plat-rt|" + nm, f"str(p) = {p} does not re-parse ({type(e).__name__})", rep))
+        # the round trip for the OBJECT the name denotes, built without the parser (seed C18k: an explicit 0 component read
+        # as "no version given" -- parse(str(parse(s))) == parse(s) still held, the parsed fields were wrong)
+        mm = re.fullmatch(r"(manylinux|musllinux|macos)_(\d+)_(\d+)_(.+)", nm)
+        if mm:
+            os_cls = {"manylinux": dl_os.Manylinux, "musllinux": dl_os.Musllinux, "macos": dl_os.Macos}[mm[1]]
+            direct = Platform(os_cls(int(mm[2]), int(mm[3])), Arch.parse(mm[4]))
+            n_oracle += 1
+            try:
+                back = Platform.parse(str(direct))
+            except Exception as e:  # noqa: BLE001
+                back = f"raise:{type(e).__name__}"
+            if back != direct:
+                run.fail(core.Failure("plat-direct|" + nm, f"Platform.parse(str(p)) = {back!r} != p for p = {direct!r}", rep))
+            if p != direct:
+                run.fail(core.Failure("plat-fields|" + nm, f"Platform.parse({nm!r}) = {p!r}, the name denotes {direct!r}", rep))
     for bad in ["manylinux_2_17_mips", "windows_sparc", "musllinux_1_2_sparc64", "macos_11_0_ppc"]:
         try:
             p = Platform.parse(bad)
